@@ -102,6 +102,8 @@ def run_history(ctx: Ctx, ops_sym, tag: str, corpus: bool = False):
             _count_diff(ctx, op, status, out, exp_status, rf.diff_info)
         if getattr(rf, "or_fields_used", False):
             ctx.count("filter:on-<name>_self/_other-fields")
+        if getattr(rf, "pad_refused", False):
+            ctx.count("pad-of-gps-format-time-field-refused:" + ("raises-" + str(out) if status != "ok" else "NOT-REFUSED"))
         if exp_status == "ok":
             for c in sorted(rf.converted):
                 ctx.count("insert-converts:" + ("time-delta:" if c.startswith("d:") else "time:") + _conv_class(c))
@@ -118,6 +120,8 @@ def run_history(ctx: Ctx, ops_sym, tag: str, corpus: bool = False):
     ctx.count(f"{tag}:len={sum(1 for o in concrete if o['op'] not in ('new', 'obj', 'add') or o.get('late'))}")
     for o in concrete:
         ctx.count("op=" + o["op"] + (":" + o["how"] if "how" in o else ""))
+        if o.get("conv_of") is not None:
+            ctx.count("time-field-is-cached-conversion-of-another-field")
     # ---- correspondence
     line = "c09 run " + units_token() + " " + rw.conv.token() + " " + " | ".join(
         ("q " if o.get("setup") else "") + " ".join(op_tokens(o)) for o in concrete)
@@ -165,8 +169,6 @@ def run(ctx: Ctx):
                     "the epoch-by-epoch conversion of a time to another scale / format inside insert enters model and oracle as "
                     "a table computed from the real Time classes on this run (closed under repeated conversion to depth 4); "
                     "position-system conversion inside insert is not modelled (generators keep the system equal)",
-                    "no dataset of the world holds a cached scale-conversion result (`t.gps`) as a field (the memo entry "
-                    "TimeBase.insert makes under the id of the converted array is modelled as no entry)",
                     "NumPy fancy indexing and np.insert modelled as list pick / splice",
                     "np.intersect1d(return_indices=True) on object-dtype records modelled as: distinct common key tuples "
                     "in ascending field-by-field order, each with its first row in either dataset",
@@ -190,13 +192,13 @@ def run(ctx: Ctx):
             for seq in itertools.product(SYMBOLIC_ALPHABET, repeat=n):
                 run_history(ctx, base + list(seq), f"exhaustive{bv}")
     # (b) random
-    for _ in range(ctx.budget(300, 4000)):
+    for _ in range(ctx.budget(300, 3500)):
         run_history(ctx, random_history(rng), "random")
     # (c) histories around `difference`
-    for _ in range(ctx.budget(350, 6000)):
+    for _ in range(ctx.budget(350, 5000)):
         run_history(ctx, diff_history(rng), "difference")
     # (d) histories around time fields of different scale / format, equal epochs, epochs microseconds apart
-    for _ in range(ctx.budget(220, 2500)):
+    for _ in range(ctx.budget(220, 2000)):
         run_history(ctx, time_history(rng), "time")
 
 
